@@ -23,7 +23,8 @@ BOOLARR_FIELDS = ('bs',)
 MSG_FIELDS = {'m': {'x': 'num', 'ok': 'bool'}}
 ALIASES = ('A', 'Msg_1')
 
-NUM_LITS = ('0', '1', '2', '3', '0.5', '1.5', '4', '10', '1.0', '2.0', '255', '360', '1000', '0.1', '3.14159', '1e3', '2147483648')
+NUM_LITS = ('0', '1', '2', '3', '0.5', '1.5', '4', '10', '1.0', '2.0', '255', '360', '1000', '0.1', '3.14159', '1e3', '2147483648',
+            '0.2', '0.7', '1.1', '0.9')
 STR_LITS = ('""', '"a"', '"ab"')
 
 # String contents as people write them: escapes of every kind (lark's ESCAPED_STRING admits a
@@ -213,7 +214,7 @@ class ExprGen:
         if c == 'idx':
             ik = s.choose('idxkind', 5)
             if ik <= 2:
-                ix = ('lit', 'num', s.pick('idxlit', ('0', '1', '2')))
+                ix = ('lit', 'num', s.pick('idxlit', ('0', '1', '2', '2', '5', '6')))
             elif ik == 3:
                 ix = ('bin', '-', ('call', 'len', self.ref(NUMARR_FIELDS)), ('lit', 'num', '1'))
             else:
@@ -360,8 +361,29 @@ class ExprGen:
 
     # -- booleans -------------------------------------------------------------
 
+    def deep_chain(self, d):
+        """One construct nested far deeper than the general depth bound (6-12 levels)."""
+        s = self.sim
+        t = self.boolean(self.max_depth - 1)
+        kind = s.choose('deepkind', 4)
+        n = s.randint('deepn', 6, 12)
+        if kind == 3:
+            n = min(n, 4)  # the library's cost more than doubles with every nested `iff` (4.5 s at ten levels)
+        for i in range(n):
+            if kind == 0:
+                t = ('un', 'not', t)
+            elif kind == 1:
+                t = ('bin', 'implies', self.bool_leaf(), t) if i % 2 else ('bin', 'implies', t, self.bool_leaf())
+            elif kind == 2:
+                t = ('bin', s.pick('deepconn', ('and', 'or')), t, self.bool_leaf() if i % 3 else ('lit', 'bool', s.pick('deeplit', ('True', 'False'))))
+            else:
+                t = ('bin', 'iff', t, self.bool_leaf())
+        return t
+
     def boolean(self, d=0):
         s = self.sim
+        if d == 0 and s.coin('deepchain', 0.03):
+            return self.deep_chain(d)
         if d >= self.max_depth or s.coin('boolleaf?', 0.15 + 0.1 * d):
             t = self.bool_leaf()
         else:
@@ -598,6 +620,9 @@ def sanitize_powers(t):
         e = t[3]
         if e[0] not in ('lit', 'neglit') and not has_reference(e):
             t = ('bin', '**', t[2], ('lit', 'num', '2'))
+        elif (e[0] == 'lit' and e[1] == 'num' and abs(float(e[2])) > 64) or (e[0] == 'neglit' and abs(float(e[1])) > 64):
+            # a huge literal exponent on a constant base is the same hang (179 ** 2147483648)
+            t = ('bin', '**', t[2], ('lit', 'num', '3'))
     return t
 
 
